@@ -18,9 +18,19 @@ import (
 // Second layer, sqlx: go-zero's commonSqlConn (real: ExecCtx, QueryRowCtx, QueryRowsCtx,
 // TransactCtx with their breaker calls and the `acceptable` predicate, the row scanner), real
 // database/sql, and a tiny in-memory database/sql driver owned by the harness.  One identity = one
-// SqlConn (NewSqlConnFromDB) on its own sql.DB.  The "request" of the property is what happens
-// below the breaker: the harness observes it at the driver (first driver call of a harness call
-// = the request started).
+// SqlConn on its own data source: either NewSqlConnFromDB on a sql.DB of the harness, or
+// NewSqlConn(driver, dsn), which connects lazily (sql.Open + Ping through go-zero's process-wide
+// connection manager, one creation in flight per data source shared by all callers, failed
+// creations not cached).  The "request" of the property is what happens below the breaker,
+// acquiring the connection included: the harness observes it at the driver (first driver call
+// of a harness call - Open of a physical connection or a statement - = the request started).
+//
+// Connection-level outage: while the backend of an identity is unreachable the driver's Open
+// fails (every attempt with its own error value) and the connections established before are dead
+// (driver.ErrBadConn, database/sql discards them and dials again).  How the request of a call ends
+// is decided by the LAST driver call made on its behalf (database/sql's retries); a call that
+// made no driver call but returns the connect error of somebody else's attempt shared that
+// attempt inside the connection manager: its request ran and failed as well.
 //
 // Documented acceptability (sqlconn.go): nil, sql.ErrNoRows, sql.ErrTxDone, context.Canceled, a
 // query whose row scan failed (the statement itself worked), and whatever the predicate given
@@ -39,6 +49,9 @@ var sqlRegistry = struct {
 
 func init() { sql.Register(sqlDriverName, sqlDriver{}) }
 
+// Open establishes one physical connection.  database/sql calls it on the task of the harness
+// call that needs the connection (Ping of a lazily connected SqlConn, or a statement that finds no
+// idle connection in the pool).
 func (sqlDriver) Open(dsn string) (driver.Conn, error) {
 	sqlRegistry.mu.Lock()
 	b := sqlRegistry.m[dsn]
@@ -46,7 +59,38 @@ func (sqlDriver) Open(dsn string) (driver.Conn, error) {
 	if b == nil {
 		return nil, fmt.Errorf("simsql: unknown dsn %q", dsn)
 	}
-	return &sqlConn{b: b}, nil
+	cr, x := b.touch()
+	defer b.done(cr)
+	if cr == nil {
+		return nil, errors.New("simsql: no call")
+	}
+	x.opens++
+	if b.down() {
+		b.connErrs++
+		e := &sqlConnectErr{b: b, n: b.connErrs, call: cr.id, at: b.id.w.stamp()}
+		b.l.r.Probe("sql-connect-refused")
+		if b.everConnected {
+			b.l.r.Probe("sql-connect-refused-after-a-successful-connect")
+		} else {
+			b.l.r.Probe("sql-connect-refused-never-connected")
+		}
+		return nil, x.result(e, true)
+	}
+	b.everConnected = true
+	x.result(nil, false)
+	return &sqlConn{b: b, gen: b.gen}, nil
+}
+
+// sqlConnectErr is the error of one refused connection attempt.
+type sqlConnectErr struct {
+	b    *sqlBackend
+	n    int   // attempt number (per backend)
+	call int   // the call on whose behalf the attempt was made
+	at   stamp // when the attempt ended
+}
+
+func (e *sqlConnectErr) Error() string {
+	return fmt.Sprintf("dial tcp 10.0.0.7:3306: connect: connection refused (simsql %s, refused attempt %d)", e.b.dsn, e.n)
 }
 
 // dupKeyErr is the "duplicate key" error of the stub database.
@@ -60,18 +104,68 @@ type sqlBackend struct {
 	l   *layer2
 	id  *ident
 	dsn string
+
+	// reachability: unreachable while the drawn schedule or the running phase says so
+	schedDown, phaseDown bool
+	flips                []int // the schedule: it flips when the n-th call of the identity arrives (ascending)
+	arrived              int
+	gen                  int // bumped when an outage starts: connections of older generations are dead
+	everConnected        bool
+	connErrs             int
+}
+
+func (b *sqlBackend) down() bool { return b.schedDown || b.phaseDown }
+
+func (b *sqlBackend) setDown(sched, phase bool) {
+	was := b.down()
+	b.schedDown, b.phaseDown = sched, phase
+	now := b.down()
+	if was == now {
+		return
+	}
+	r := b.l.r
+	if now {
+		b.gen++
+		r.Probe("sql-outage-begins")
+		if !b.everConnected {
+			r.Probe("sql-outage-before-the-first-connect")
+		}
+	} else {
+		r.Probe("sql-outage-ends")
+	}
+	v := int64(0)
+	if now {
+		v = 1
+	}
+	r.Ev("sql-reachability", int64(b.arrived), v)
+	if r.Tracing() {
+		r.Logf("backend of %s: unreachable=%v (at its call %d)", b.id.desc, now, b.arrived)
+	}
+}
+
+// arrive: a call of the identity arrives; the outage schedule is counted in arrivals.
+func (b *sqlBackend) arrive() {
+	b.arrived++
+	for len(b.flips) > 0 && b.arrived >= b.flips[0] {
+		b.flips = b.flips[1:]
+		b.setDown(!b.schedDown, b.phaseDown)
+	}
 }
 
 type sqlIdent struct {
 	b    *sqlBackend
-	db   *sql.DB
+	db   *sql.DB // NewSqlConnFromDB identities: the pool belongs to the harness
+	lazy bool    // NewSqlConn(driver, dsn): go-zero connects on first use and owns the pool
 	conn sqlx.SqlConn
 }
 
 // what the harness saw of one call at the driver
 type sqlObs struct {
 	drvCalls  int
-	want      error // the error injected below the breaker (nil: none)
+	opens     int   // connection attempts made on behalf of the call
+	want      error // the error the request ended with below the breaker (nil: none): result of the last driver call
+	connFault bool  // ... and it is the outage's doing (refused connection attempt, dead connection)
+	shared    bool  // no driver call of its own: it received the error of another call's connection attempt
 	wantText  string
 	began     bool
 	commits   int
@@ -188,13 +282,31 @@ func (b *sqlBackend) touch() (*callRec, *sqlObs) {
 	return c, x
 }
 
+// result: how a driver call made on behalf of a call ended.  database/sql retries bad connections,
+// a transaction goes on after BEGIN: the last driver call decides how the request ends.
+func (x *sqlObs) result(err error, connFault bool) error {
+	x.want, x.connFault = err, connFault
+	return err
+}
+
 func (b *sqlBackend) done(c *callRec) {
 	if c != nil {
 		c.reqEnd = b.id.w.stamp()
 	}
 }
 
-type sqlConn struct{ b *sqlBackend }
+type sqlConn struct {
+	b   *sqlBackend
+	gen int
+}
+
+// dead: the connection was established before the latest outage began.
+func (c *sqlConn) dead() bool { return c.gen != c.b.gen }
+
+func (c *sqlConn) deadErr(x *sqlObs) error {
+	c.b.l.r.Probe("sql-dead-connection")
+	return x.result(driver.ErrBadConn, true)
+}
 
 var (
 	_ driver.ConnBeginTx    = (*sqlConn)(nil)
@@ -216,22 +328,25 @@ func (c *sqlConn) BeginTx(context.Context, driver.TxOptions) (driver.Tx, error) 
 	if cr == nil {
 		return nil, errors.New("simsql: no call")
 	}
+	if c.dead() {
+		return nil, c.deadErr(x)
+	}
 	if cr.p.outcome == outErr {
 		switch c.b.l.sqlKind(cr.p) {
 		case sfBegin:
-			x.want = fmt.Errorf("simsql: BEGIN failed (call %d)", cr.id)
-			return nil, x.want
+			return nil, x.result(fmt.Errorf("simsql: BEGIN failed (call %d)", cr.id), false)
 		case sfBadConn:
-			x.want = driver.ErrBadConn
-			return nil, driver.ErrBadConn
+			return nil, x.result(driver.ErrBadConn, false)
 		}
 	}
+	x.result(nil, false)
 	x.began = true
-	return &sqlTx{b: c.b, cr: cr, x: x}, nil
+	return &sqlTx{b: c.b, c: c, cr: cr, x: x}, nil
 }
 
 type sqlTx struct {
 	b  *sqlBackend
+	c  *sqlConn
 	cr *callRec
 	x  *sqlObs
 }
@@ -239,9 +354,11 @@ type sqlTx struct {
 func (t *sqlTx) Commit() error {
 	t.x.commits++
 	defer t.b.done(t.cr)
+	if t.c.dead() {
+		return t.c.deadErr(t.x)
+	}
 	if t.cr.p.outcome == outErr && t.b.l.sqlKind(t.cr.p) == sfCommit {
-		t.x.want = fmt.Errorf("simsql: COMMIT failed (call %d)", t.cr.id)
-		return t.x.want
+		return t.x.result(fmt.Errorf("simsql: COMMIT failed (call %d)", t.cr.id), false)
 	}
 	return nil
 }
@@ -255,6 +372,10 @@ func (t *sqlTx) Rollback() error {
 // stmtErr decides the error of a statement (Exec or Query) of the current call.
 func (c *sqlConn) stmtErr(cr *callRec, x *sqlObs) error {
 	p := cr.p
+	if c.dead() {
+		return c.deadErr(x)
+	}
+	x.result(nil, false)
 	if p.entry == entSQLTransact {
 		return nil // the statement inside a transaction body works; the body decides
 	}
@@ -343,17 +464,45 @@ func (l *layer2) setupSQL() bool {
 		b := &sqlBackend{l: l, id: id}
 		sqlRegistry.mu.Lock()
 		sqlRegistry.n++
-		b.dsn = fmt.Sprintf("c01-%d", sqlRegistry.n) // never influences behaviour or verdicts
+		// run-unique: go-zero's connection manager is process-wide and keyed by the data source
+		// (never influences behaviour or verdicts; not a DSN the mysql driver could parse, so
+		// go-zero registers no pool metrics for it)
+		b.dsn = fmt.Sprintf("c01-%d", sqlRegistry.n)
 		sqlRegistry.m[b.dsn] = b
 		sqlRegistry.mu.Unlock()
 		id.sql.b = b
-		db, err := sql.Open(sqlDriverName, b.dsn)
-		if err != nil {
-			r.EngineError("sql.Open: %v", err)
-			return false
+		id.sql.lazy = t.Bool()
+		var db *sql.DB
+		if id.sql.lazy {
+			id.desc = fmt.Sprintf("SqlConn #%d (NewSqlConn, connects on first use)", i)
+			r.Probe("sql-identity-lazily-connected")
+		} else {
+			var err error
+			db, err = sql.Open(sqlDriverName, b.dsn)
+			if err != nil {
+				r.EngineError("sql.Open: %v", err)
+				return false
+			}
+			id.sql.db = db
+			id.desc = fmt.Sprintf("SqlConn #%d (NewSqlConnFromDB)", i)
 		}
-		id.sql.db = db
-		id.desc = fmt.Sprintf("SqlConn #%d", i)
+		// connection-level outage windows, counted in arrivals of calls of this identity; 0 = none.
+		// Reachable at first: 1-3 changes (goes down after a successful connect, comes back, ...);
+		// unreachable from the start (a lazily connected SqlConn has never connected yet): 0-2 changes.
+		if k := t.Intn(4); k > 0 {
+			changes := k
+			if t.Bool() {
+				b.schedDown = true
+				changes = k - 1
+				r.Probe("sql-outage-from-the-start")
+			}
+			at := 1
+			for f := 0; f < changes; f++ {
+				at += []int{1, 2, 4, 8, 20, 60}[t.Intn(6)] + t.Intn(4)
+				b.flips = append(b.flips, at)
+			}
+			r.Probe("sql-outage-scheduled")
+		}
 		var opts []sqlx.SqlOption
 		if l.sqlAcceptDup {
 			opts = append(opts, sqlx.WithAcceptable(func(err error) bool {
@@ -363,7 +512,11 @@ func (l *layer2) setupSQL() bool {
 			r.Probe("sql-with-acceptable")
 		}
 		id.w = l.newWorld(func(int) bool {
-			id.sql.conn = sqlx.NewSqlConnFromDB(db, opts...)
+			if id.sql.lazy {
+				id.sql.conn = sqlx.NewSqlConn(sqlDriverName, b.dsn, opts...)
+			} else {
+				id.sql.conn = sqlx.NewSqlConnFromDB(db, opts...)
+			}
 			return true
 		})
 		if id.w == nil {
@@ -378,6 +531,7 @@ func (l *layer2) setupSQL() bool {
 }
 
 func (l *layer2) teardownSQL() {
+	var lazy []string
 	for _, id := range l.ids {
 		if id.sql == nil {
 			continue
@@ -385,15 +539,27 @@ func (l *layer2) teardownSQL() {
 		if id.sql.db != nil {
 			id.sql.db.Close() // ends database/sql's connectionOpener goroutine of this run
 		}
-		sqlRegistry.mu.Lock()
-		delete(sqlRegistry.m, id.sql.b.dsn)
-		sqlRegistry.mu.Unlock()
+		if id.sql.lazy {
+			lazy = append(lazy, id.sql.b.dsn)
+		}
+	}
+	if len(lazy) > 0 {
+		// the pools go-zero created for this run (and their goroutines) end with the run
+		sqlx.VerifC01ForgetConns(lazy...)
+	}
+	for _, id := range l.ids {
+		if id.sql != nil {
+			sqlRegistry.mu.Lock()
+			delete(sqlRegistry.m, id.sql.b.dsn)
+			sqlRegistry.mu.Unlock()
+		}
 	}
 }
 
 func (l *layer2) sqlCall(id *ident, c *callRec, ctx context.Context, cancel func()) {
 	x := &sqlObs{}
 	c.x, c.cancel = x, cancel
+	id.sql.b.arrive()
 	conn := id.sql.conn
 	p := c.p
 	kind := l.sqlKind(p)
@@ -512,7 +678,36 @@ func sqlPassThrough(c *callRec) (bool, string) {
 	return true, ""
 }
 
+// sqlInferRequest: a call that made no driver call of its own but returns the error of a refused
+// connection attempt waited for that attempt (made for another call) inside go-zero's connection
+// manager, which shares one creation in flight between all callers of a data source.  Acquiring
+// the connection is part of its request: the request ran, below the breaker, and failed, at some
+// instant after the attempt had ended.
+func (l *layer2) sqlInferRequest(id *ident, c *callRec) {
+	x, _ := c.x.(*sqlObs)
+	var ce *sqlConnectErr
+	if x == nil || x.drvCalls > 0 || c.reqRuns > 0 || c.panicked || !errors.As(c.gotErr, &ce) {
+		return
+	}
+	c.servedBy = ce.b.id
+	if ce.b.id != id {
+		return // reported as wrong-handler
+	}
+	c.reqRuns = 1
+	x.shared = true
+	x.result(ce, true)
+	st := ce.at
+	if st.s < c.inv.s {
+		st = c.inv
+	}
+	c.reqStart, c.reqEnd = st, st
+	l.r.Probe("sql-connect-error-shared-with-a-concurrent-call")
+}
+
 func sqlRecordedAs(c *callRec) evKind {
+	if c.x.(*sqlObs).connFault {
+		return evFail // a refused connection / a dead connection is none of the accepted errors
+	}
 	if c.p.outcome == outOK || c.p.outcome == outAccErr {
 		return evSucc
 	}
